@@ -35,9 +35,9 @@ VALUES: dict[str, list[str]] = {
     'merr': ['503=2'],
     'vcorrupt': ['11:59:50Z'],
     'frames': ['2'],
-    'clearkey__la_url': ['https://ck.test/lic?a=1&b=2', 'https://ck.test/p%20q/#frag', 'https://ck.test/a+b=c'],
-    'marlin__la_url': ['ms3://m.test/x?y=1&z=2'],
-    'playready__la_url': ['https://pr.test/rights?cfg={cfgs}&x=1', 'https://pr.test/a b/c+d'],
+    'clearkey__la_url': ['https://ck.test/lic?a=1&b=2', 'https://ck.test/p%20q/#frag', 'https://ck.test/a+b=c', 'https://ck.test/license?sig=ab%2Bcd%2F9'],
+    'marlin__la_url': ['ms3://m.test/x?y=1&z=2', 'ms3://m.test/?title=big%20buck%20bunny'],
+    'playready__la_url': ['https://pr.test/rights?cfg={cfgs}&x=1', 'https://pr.test/a b/c+d', 'https://pr.test/acquire?token=eyJh%3D%3D&next=https%3A%2F%2Fcdn.test%2Fok'],
     'playready__piff': ['0', '1'],
     'playready__version': ['1.0', '2.0', '3.0', '4.0'],
     'abr': ['0', '1'], 'base': ['0', '1'], 'mup': ['-1', '4', '30'], 'timeline': ['0', '1'], 'patch': ['1'], 'acodec': ['mp4a', 'ec-3'],
@@ -139,6 +139,15 @@ def main(tier_: str) -> int:
                     except Exception as err:      # noqa: BLE001
                         ln['err'] = f'{type(err).__name__}: {err}'[:120]
                     lines.append(ln)
+                    # ... and starting from the value: a text-valued option (licence URLs) given the text itself as its value
+                    try:
+                        if isinstance(opts[n].from_string(raw), str):
+                            s0 = opts[n].to_string(raw)
+                            back = opts[n].from_string(s0)
+                            lines.append({'ev': 'codec', 'name': n, 'raw': raw, 'v1': canon(raw), 'v2': canon(back), 'ok': 1, 'given': '',
+                                          'text': str(s0)[:80], 'from': 'value'})
+                    except Exception:      # noqa: BLE001
+                        pass
             # ---- forwarding ----------------------------------------------------------------------------
             vectors: list[dict[str, str]] = [{}]
             for n in names:
@@ -152,7 +161,8 @@ def main(tier_: str) -> int:
                     vec[n] = rng.choice(VALUES[n])
                 vectors.append(vec)
             if tier_ == 'quick':
-                vectors = vectors[:1] + rng.sample(vectors[1:], min(170, len(vectors) - 1))
+                always = [v for v in vectors[1:] if len(v) == 1 and next(iter(v)).endswith('__la_url')]
+                vectors = vectors[:1] + always + rng.sample([v for v in vectors[1:] if v not in always], min(160, len(vectors) - 1 - len(always)))
             refused = 0
             for vec in vectors:
                 mode = 'live'
